@@ -12,9 +12,10 @@ Ltac Zify.zify_post_hook ::= Z.div_mod_to_equations.
 (* ---------------------------------------------------------------------------------------------- *)
 (* sequence numbers (go_nextSequenceNumber is regenerated from the Go source on every run) *)
 
-Lemma next_range s : 0 <= s < 4294967295 -> 1 <= go_nextSequenceNumber s <= 4294966272.
+Lemma next_range s : 0 <= s < 4294967296 -> 0 <= go_nextSequenceNumber s <= 4294966272.
 Proof.
   intros H. unfold go_nextSequenceNumber. cbv zeta.
+  destruct (Z.eq_dec s 4294967295) as [->|Hne]; [vm_compute; split; discriminate|].
   rewrite (Z.mod_small (s + 1)) by lia.
   destruct (Z.gtb_spec (s + 1) (4294967295 - 1023)); lia.
 Qed.
@@ -132,6 +133,48 @@ Proof.
   rewrite P4. unfold k. rewrite Z2Nat.id by lia. lia.
 Qed.
 
+Lemma limit_ok lim x :
+  0 <= x -> (lim = 0 \/ x <= lim) -> 0 <= lim < 4294967296 ->
+  (lim >? 0) && (x mod 4294967296 >? lim) = false.
+Proof.
+  intros Hx [->|Hle] Hl; [reflexivity|].
+  rewrite Z.mod_small by lia. apply andb_false_iff. right. rewrite Z.gtb_ltb. apply Z.ltb_ge. exact Hle.
+Qed.
+
+Lemma zlen_raw_item mt chan tok seq req it :
+  zlen mt = 3 -> zlen (raw_item mt chan tok seq req it) = 24 + zlen (snd it).
+Proof.
+  intros Hmt. unfold raw_item, raw_chunk, hdr12. rewrite !zlen_app, !zlen_le32, zlen_single, Hmt. lia.
+Qed.
+
+Lemma sum_raw mt chan tok seq req its : zlen mt = 3 -> forall acc,
+  fold_left (fun acc c => acc + (zlen c - 24)) (map (raw_item mt chan tok seq req) its) acc
+  = acc + zlen (concat (map snd its)).
+Proof.
+  intros Hmt. induction its as [|it rest IH]; intros acc; [cbn [map fold_left concat]; change (zlen (@nil byte)) with 0; lia|].
+  cbn [map fold_left concat]. rewrite IH, zlen_raw_item, zlen_app by exact Hmt. lia.
+Qed.
+
+Lemma check_peer_limits_ok mt chan tok seq req maxb body pmc pmm :
+  zlen mt = 3 -> 0 < maxb -> zlen body / maxb + 1 < 4294967296 ->
+  0 <= pmc < 4294967296 -> 0 <= pmm ->
+  (pmc = 0 \/ zlen body / maxb + 1 <= pmc) -> (pmm = 0 \/ zlen body <= pmm) ->
+  check_peer_limits pmc pmm (map (raw_item mt chan tok seq req) (items maxb body)) = None.
+Proof.
+  intros Hmt Hm Hn Hpc Hpm Hc Hs. unfold check_peer_limits.
+  destruct (items_shape maxb body Hm) as (cs & f & Hitems & _ & Hcsn & _).
+  assert (Hlen : zlen (map (raw_item mt chan tok seq req) (items maxb body)) = zlen body / maxb + 1).
+  { rewrite zlen_map, Hitems, zlen_app, zlen_map, zlen_single. unfold zlen at 1. lia. }
+  rewrite Hlen.
+  pose proof (zlen_nonneg body) as Hb0.
+  assert (Hq : 0 <= zlen body / maxb) by (apply Z.div_pos; lia).
+  rewrite limit_ok by (try assumption; lia).
+  rewrite sum_raw by exact Hmt. rewrite items_concat by exact Hm. rewrite Z.add_0_l.
+  destruct Hs as [->|Hs]; [reflexivity|].
+  replace (zlen body >? pmm) with false by (symmetry; rewrite Z.gtb_ltb; apply Z.ltb_ge; exact Hs).
+  rewrite andb_false_r. reflexivity.
+Qed.
+
 (* ---------------------------------------------------------------------------------------------- *)
 (* send loop: numbering *)
 
@@ -203,7 +246,7 @@ Qed.
 Definition seq_inv (s : Z) : Prop := 0 <= s <= 4294966272.
 
 Lemma send_loop_ok its : forall first s s1,
-  (first = true -> s1 = s /\ 1 <= s <= 4294966272) -> (first = false -> seq_inv s) ->
+  (first = true -> s1 = s /\ 0 <= s <= 4294966272) -> (first = false -> seq_inv s) ->
   exists ws, send_loop m S first s (map (raw_item MSG chan tok s1 req) its) = Ok (ws, snd (numbered first s its)) /\
              Forall2 wire_ok (fst (numbered first s its)) ws.
 Proof.
@@ -211,7 +254,7 @@ Proof.
   - exists []. split; [reflexivity | constructor].
   - cbn [map send_loop numbered].
     set (s' := if first then s else go_nextSequenceNumber s).
-    assert (Hs' : 1 <= s' <= 4294966272).
+    assert (Hs' : 0 <= s' <= 4294966272).
     { unfold s'. destruct first; [apply Hf; reflexivity|]. apply next_range. specialize (Hnf eq_refl). unfold seq_inv in Hnf. lia. }
     assert (Hput : (if first then Some (raw_item MSG chan tok s1 req (ct, d)) else put32 16 (raw_item MSG chan tok s1 req (ct, d)) s')
                    = Some (raw_item MSG chan tok s' req (ct, d))).
@@ -227,11 +270,11 @@ Qed.
 Fixpoint chain_ok (prev : Z) (l : list Z) : Prop :=
   match l with [] => True | x :: r => x <> prev /\ chain_ok x r end.
 
-Lemma numbered_chain its : forall s, 0 <= s < 4294967295 ->
+Lemma numbered_chain its : forall s, 0 <= s <= 4294966272 ->
   chain_ok s (map (fun x => snd (fst x)) (fst (numbered false s its))).
 Proof.
   induction its as [|[ct d] rest IH]; intros s Hs; [exact I|].
-  cbn [numbered]. pose proof (next_range s Hs) as Hn. pose proof (next_neq s ltac:(lia)) as Hne.
+  cbn [numbered]. pose proof (next_range s ltac:(lia)) as Hn. pose proof (next_neq s ltac:(lia)) as Hne.
   specialize (IH (go_nextSequenceNumber s) ltac:(lia)).
   destruct (numbered false (go_nextSequenceNumber s) rest) as [l sn]. cbn [fst snd map chain_ok] in *.
   split; assumption.
@@ -250,21 +293,27 @@ Qed.
 (* receive side *)
 
 Lemma merge_loop_chain prev (chs : list chunk) :
-  chain_ok prev (map c_seq chs) -> merge_loop prev chs = concat (map c_data chs).
+  chain_ok prev (map c_seq chs) -> merge_loop false prev chs = concat (map c_data chs).
 Proof.
   revert prev. induction chs as [|c rest IH]; intros prev Hc; [reflexivity|].
-  cbn [map chain_ok] in Hc. destruct Hc as [Hne Hrest]. cbn [merge_loop map concat].
+  cbn [map chain_ok] in Hc. destruct Hc as [Hne Hrest]. cbn [merge_loop map concat negb andb].
   replace (c_seq c =? prev) with false by (symmetry; apply Z.eqb_neq; exact Hne).
   rewrite IH by exact Hrest. reflexivity.
 Qed.
 
+(* adjacent sequence numbers differ *)
+Definition adjacent_distinct (l : list Z) : Prop :=
+  match l with [] => True | x :: r => chain_ok x r end.
+
 Lemma merge_chunks_chain (chs : list chunk) :
-  chain_ok 0 (map c_seq chs) -> merge_chunks chs = concat (map c_data chs).
+  adjacent_distinct (map c_seq chs) -> merge_chunks chs = concat (map c_data chs).
 Proof.
   intros Hc. destruct chs as [|c [|c2 rest]].
   - reflexivity.
   - cbn. rewrite app_nil_r. reflexivity.
-  - unfold merge_chunks. apply merge_loop_chain. exact Hc.
+  - unfold merge_chunks.
+    change (merge_loop true 0 (c :: c2 :: rest)) with (c_data c ++ merge_loop false (c_seq c) (c2 :: rest)).
+    rewrite (merge_loop_chain (c_seq c) (c2 :: rest)) by exact Hc. reflexivity.
 Qed.
 
 Lemma tbl_get_del t k : tbl_get (tbl_del t k) k = [].
@@ -285,9 +334,9 @@ Definition mk (x : byte * Z * bytes) : chunk := let '(ct, sq, d) := x in mkChunk
 Lemma receive_all_ok (cs : list (byte * Z * bytes)) : forall (ws : list bytes) (t : chunk_table) f fw,
   Forall2 wire_ok cs ws -> wire_ok f fw ->
   Forall (fun x => fst (fst x) = "C"%byte) cs -> fst (fst f) = "F"%byte ->
-  zlen (tbl_get t req) + zlen cs <= maxchunks -> maxchunks < 4294967296 ->
+  (maxchunks = 0 \/ zlen (tbl_get t req) + zlen cs <= maxchunks) -> 0 <= maxchunks < 4294967296 ->
   let all := tbl_get t req ++ map mk cs ++ [mk f] in
-  0 <= zlen (merge_chunks all) <= maxmsg -> maxmsg < 4294967296 ->
+  (maxmsg = 0 \/ zlen (merge_chunks all) <= maxmsg) -> 0 <= maxmsg < 4294967296 ->
   receive_all cfg t (ws ++ [fw]) = [Deliver req chan (merge_chunks all)].
 Proof.
   induction cs as [|x cs IH]; intros ws t f fw Hall Hf HC HF Hcnt Hmc all Hsz Hmm.
@@ -296,9 +345,8 @@ Proof.
     destruct Hf as (Hr & _). cbn [cfg r_mode r_pnone r_algo r_chan]. rewrite Hr. cbn [c_req c_type c_chan].
     change (Byte.eqb "F" "A") with false. change (Byte.eqb "F" "C") with false. cbv iota.
     unfold all in Hsz. cbn [map app] in Hsz. cbn [mk] in Hsz.
-    change (r_maxmsg cfg) with maxmsg. rewrite Z.mod_small by lia.
-    replace (zlen (merge_chunks (tbl_get t req ++ [mkChunk "F" chan sq req d])) >? maxmsg) with false
-      by (symmetry; rewrite Z.gtb_ltb; apply Z.ltb_ge; lia).
+    change (r_maxmsg cfg) with maxmsg.
+    rewrite limit_ok by (try assumption; apply zlen_nonneg).
     reflexivity.
   - inversion Hall as [|x' w cs' ws' Hx Hrest]; subst. inversion HC as [|? ? HxC HCrest]; subst.
     cbn [app receive_all]. unfold receive_step at 1.
@@ -308,13 +356,13 @@ Proof.
     change (r_maxchunks cfg) with maxchunks.
     pose proof (zlen_nonneg (tbl_get t req)) as Hg0. pose proof (zlen_nonneg cs) as Hc0.
     rewrite zlen_cons in Hcnt.
-    rewrite zlen_app, zlen_single. rewrite Z.mod_small by lia.
-    replace (zlen (tbl_get t req) + 1 >? maxchunks) with false by (symmetry; rewrite Z.gtb_ltb; apply Z.ltb_ge; lia).
+    rewrite zlen_app, zlen_single.
+    rewrite limit_ok by (try assumption; lia).
     cbn [app].
     fold cfg.
     rewrite (IH ws' (tbl_set t req (tbl_get t req ++ [mkChunk "C" chan sq req d])) f fw Hrest Hf HCrest HF).
     + rewrite tbl_get_set. unfold all. cbn [map mk]. rewrite <- !app_assoc. reflexivity.
-    + rewrite tbl_get_set, zlen_app, zlen_single. lia.
+    + rewrite tbl_get_set, zlen_app, zlen_single. destruct Hcnt as [->|Hcnt]; [left; reflexivity | right; lia].
     + exact Hmc.
     + rewrite tbl_get_set. unfold all in Hsz. cbn [map mk] in Hsz. rewrite <- !app_assoc. exact Hsz.
     + exact Hmm.
@@ -330,20 +378,27 @@ Proof. rewrite map_map. apply map_ext. intros [[ct sq] d]. reflexivity. Qed.
 Lemma mk_data chan req l : map c_data (map (mk chan req) l) = map snd l.
 Proof. rewrite map_map. apply map_ext. intros [[ct sq] d]. reflexivity. Qed.
 
-Theorem send_receive S R m pnone chan tok req maxBody s0 body maxchunks maxmsg t :
+Theorem send_receive S R m pnone chan tok req maxBody s0 pmc pmm body maxchunks maxmsg t :
   link S R -> 0 < a_plain S -> 0 <= a_sig S ->
   0 <= chan < 4294967296 -> 0 <= req < 4294967296 ->
-  0 < maxBody < 4294967296 -> 0 <= s0 < 4294967295 ->
-  zlen body < 4294967295 -> zlen body <= maxmsg -> maxmsg < 4294967296 ->
-  zlen body / maxBody <= maxchunks -> maxchunks < 4294967296 ->
+  0 < maxBody < 4294967296 -> 0 <= s0 < 4294967296 ->
+  zlen body < 4294967295 ->
+  0 <= pmc < 4294967296 -> 0 <= pmm -> (pmc = 0 \/ zlen body / maxBody + 1 <= pmc) -> (pmm = 0 \/ zlen body <= pmm) ->
+  (maxmsg = 0 \/ zlen body <= maxmsg) -> 0 <= maxmsg < 4294967296 ->
+  (maxchunks = 0 \/ zlen body / maxBody <= maxchunks) -> 0 <= maxchunks < 4294967296 ->
   tbl_get t req = [] ->
   exists ws sn,
-    send_message m S MSG chan tok req maxBody s0 body = Ok (ws, sn) /\
+    send_message m S MSG chan tok req maxBody s0 pmc pmm body = Ok (ws, sn) /\
     receive_all (cfg R m pnone chan maxchunks maxmsg) t ws = [Deliver req chan body] /\
     Forall2 (wire_ok S R m pnone chan req) (fst (numbered true (go_nextSequenceNumber s0) (items maxBody body))) ws.
 Proof.
-  intros L Hpl Hsg Hch Hrq Hmb Hs0 Hb Hbm Hmm Hcnt Hmc Ht.
+  intros L Hpl Hsg Hch Hrq Hmb Hs0 Hb Hpc Hpm Hpcl Hpml Hbm Hmm Hcnt Hmc Ht.
   unfold send_message. rewrite encode_chunks_ok by assumption.
+  assert (Hnr : zlen body / maxBody + 1 < 4294967296).
+  { pose proof (zlen_nonneg body). assert (zlen body / maxBody <= zlen body); [|lia].
+    apply Z.div_le_upper_bound; [lia|].
+    assert (1 * zlen body <= maxBody * zlen body) by (apply Z.mul_le_mono_nonneg_r; lia). lia. }
+  rewrite check_peer_limits_ok by (try assumption; try reflexivity; lia).
   pose proof (next_range s0 Hs0) as Hs1. set (s1 := go_nextSequenceNumber s0) in *.
   destruct (send_loop_ok S R L Hpl Hsg m pnone chan tok req Hch Hrq (items maxBody body) true s1 s1)
     as (ws & Hsend & Hall); [intros _; split; [reflexivity | lia] | discriminate |].
@@ -357,11 +412,11 @@ Proof.
   rewrite Hl in Hall. apply Forall2_app_inv_l in Hall. destruct Hall as (ws1 & ws2 & Hall1 & Hall2 & ->).
   inversion Hall2 as [|? fw ? ws2' Hfw Hnil]; subst. inversion Hnil; subst.
   (* sequence numbers of the produced chunks never trip the duplicate filter *)
-  assert (Hchain : chain_ok 0 (map (fun x => snd (fst x)) l)).
+  assert (Hchain : adjacent_distinct (map (fun x => snd (fst x)) l)).
   { unfold l. destruct (items maxBody body) as [|[ct d] rest] eqn:Ei.
     - rewrite Hitems in Ei. destruct cs; discriminate.
     - cbn [numbered]. pose proof (numbered_chain rest s1 ltac:(lia)) as Hc.
-      destruct (numbered false s1 rest) as [l' sn']. cbn [fst snd map chain_ok] in *. split; [lia | exact Hc]. }
+      destruct (numbered false s1 rest) as [l' sn']. cbn [fst snd map adjacent_distinct] in *. exact Hc. }
   assert (Hdata : concat (map snd l) = body).
   { rewrite <- (items_concat maxBody body) by lia.
     rewrite <- (numbered_items true s1 (items maxBody body)). fold l. rewrite map_map. reflexivity. }
@@ -378,9 +433,9 @@ Proof.
     assert (Hin : In (fst (fst x), snd x) (map (fun x => (fst (fst x), snd x)) csN)) by (apply (in_map (fun x => (fst (fst x), snd x))); exact Hx).
     rewrite HcsN in Hin. apply in_map_iff in Hin. destruct Hin as (d & Hd & _). injection Hd as Hd _. symmetry. exact Hd.
   - exact HfN.
-  - rewrite Ht, zlen_nil. unfold zlen. rewrite Hlen_csN. lia.
+  - destruct Hcnt as [->|Hcnt]; [left; reflexivity | right]. rewrite Ht, zlen_nil. unfold zlen. rewrite Hlen_csN. lia.
   - exact Hmc.
-  - rewrite Hmerge. pose proof (zlen_nonneg body). lia.
+  - rewrite Hmerge. exact Hbm.
   - exact Hmm.
 Qed.
 
